@@ -22,6 +22,10 @@
 //   drain           sendTraces consumes one decided trace             obs  <t> <sid>:<rate>:<marker>,… | empty
 //   flush           drain until tracesToSend is empty                obs  <t> <…>;<t> <…>;… | empty
 //   reload <gen> <dry>  swap the rules (generation) and DryRun        (no obs)
+//   resize <k>      reload with SampleCache.KeptSize = k per worker (cuckooSentCache.Resize)   (no obs)
+//   stress <0|1>    the controllable StressReliever reports stressed / not stressed             (no obs)
+//                   while stressed a span takes the router's path: ProcessSpanImmediately
+//                   ext owner, filt, sdec    obs  skept <sid>:<rate>:<marker>:s | sdrop
 //   check           obs buf=<buffered trace ids> pending=<len tracesToSend>
 package main
 
@@ -88,6 +92,22 @@ func (nullHealth) Register(string, time.Duration) {}
 func (nullHealth) Unregister(string)              {}
 func (nullHealth) Ready(string, bool)             {}
 
+// ctlStress is the controllable StressReliever: whether the node is stressed is set by the op file
+// (the level computation is C15's); the keep/drop answer is the real StressRelief.GetSampleRate
+// (wyhash of the trace id against SamplingRate from the configuration).
+type ctlStress struct {
+	real *collect.StressRelief
+	on   bool
+}
+
+func (c *ctlStress) Start() error      { return nil }
+func (c *ctlStress) UpdateFromConfig() { c.real.UpdateFromConfig() }
+func (c *ctlStress) Recalc() uint      { return 0 }
+func (c *ctlStress) Stressed() bool    { return c.on }
+func (c *ctlStress) GetSampleRate(traceID string) (uint, bool, string) {
+	return c.real.GetSampleRate(traceID)
+}
+
 type comp struct{}
 
 // ---------------------------------------------------------------------------- generator
@@ -103,6 +123,8 @@ func (comp) Gen(r *kit.Rng, maxLen int, tier string) kit.Case {
 	u := 2 + r.Intn(7)
 	n := 8 + r.Intn(maxLen)
 	reloads := r.Chance(45) // cases without any reload keep DryRun constant (C01 / C05 conclusions apply)
+	resizes := r.Chance(35) // reloads that change the kept-decision capacity
+	stressy := r.Chance(30) // stress relief switches on and off
 	var ops []string
 	last := -1
 	span := func(t int) {
@@ -115,7 +137,14 @@ func (comp) Gen(r *kit.Rng, maxLen int, tier string) kit.Case {
 		last = t
 	}
 	for len(ops) < n {
-		switch r.Pick(46, 14, 5, 5, 18, 6, 3, 3) {
+		wResize, wStress := 0, 0
+		if resizes {
+			wResize = 5
+		}
+		if stressy {
+			wStress = 5
+		}
+		switch r.Pick(46, 14, 5, 5, 18, 6, 3, 3, wResize, wStress) {
 		case 0:
 			t := r.Intn(u)
 			if last >= 0 && r.Chance(35) {
@@ -159,6 +188,26 @@ func (comp) Gen(r *kit.Rng, maxLen int, tier string) kit.Case {
 				ops = append(ops, "flush")
 			}
 			ops = append(ops, "check")
+		case 8: // shrink or grow the kept capacity (0 = refused by lru.New), often followed by a late span
+			ops = append(ops, fmt.Sprintf("resize %d", []int{1, 1, 2, 2, 3, 4, 0}[r.Intn(7)]))
+			if r.Chance(60) {
+				span(r.Intn(u))
+			}
+		case 9: // a stress episode: spans take ProcessSpanImmediately, some of them of buffered traces
+			ops = append(ops, "stress 1")
+			for k := 0; k < 1+r.Intn(4); k++ {
+				t := r.Intn(u)
+				if last >= 0 && r.Chance(30) {
+					t = last
+				}
+				span(t)
+				if r.Chance(15) {
+					ops = append(ops, "drain")
+				}
+			}
+			if r.Chance(80) {
+				ops = append(ops, "stress 0")
+			}
 		case 7: // burst: several spans of one trace, then its decision
 			t := r.Intn(u)
 			for k := 0; k < 2+r.Intn(3); k++ {
@@ -166,6 +215,9 @@ func (comp) Gen(r *kit.Rng, maxLen int, tier string) kit.Case {
 			}
 			ops = append(ops, fmt.Sprintf("tick %d", t))
 		}
+	}
+	if stressy {
+		ops = append(ops, "stress 0")
 	}
 	// run to quiescence: every worker ticks until its buffer is empty, sendTraces drains everything
 	rounds := 1
@@ -188,6 +240,7 @@ type fwd struct {
 	tid    string
 	rate   uint
 	marker string
+	stress bool
 }
 
 type runner struct {
@@ -202,6 +255,7 @@ type runner struct {
 	n     int
 	rel   []chan struct{}
 	sid   int64
+	sr    *ctlStress
 }
 
 func (comp) NewCase(h []string) kit.Runner {
@@ -239,6 +293,7 @@ func (comp) NewCase(h []string) kit.Runner {
 			PeerQueueSize:     64 * workers,
 		},
 		Samplers:           samplersFor(0),
+		StressRelief:       config.StressReliefConfig{Mode: "never", ActivationLevel: 90, DeactivationLevel: 75, SamplingRate: 3},
 		DryRun:             dry == 1,
 		TraceIdFieldNames:  []string{"trace.trace_id"},
 		ParentIdFieldNames: []string{"trace.parent_id"},
@@ -255,6 +310,7 @@ func (comp) NewCase(h []string) kit.Runner {
 	}
 	ps := &pubsub.LocalPubSub{Config: conf, Metrics: met}
 	ps.Start()
+	sr := &ctlStress{real: &collect.StressRelief{Config: conf, Logger: &logger.NullLogger{}, RefineryMetrics: met, Clock: clock}}
 	c := &collect.InMemCollector{
 		TestMode:         true,
 		Config:           conf,
@@ -266,7 +322,7 @@ func (comp) NewCase(h []string) kit.Runner {
 		PeerTransmission: ptx,
 		PubSub:           ps,
 		Metrics:          met,
-		StressRelief:     &collect.MockStressReliever{},
+		StressRelief:     sr,
 		SamplerFactory:   sf,
 		Peers:            peer.NewMockPeers([]string{"api1"}, "api1"),
 		Sharder:          &sharder.MockSharder{Self: &sharder.TestShard{Addr: "api1"}},
@@ -274,7 +330,7 @@ func (comp) NewCase(h []string) kit.Runner {
 	if err := c.Start(); err != nil {
 		panic(err)
 	}
-	r := &runner{conf: conf, clock: clock, tx: tx, ptx: ptx, sf: sf, ps: ps, coll: c, n: collect.VerifCollectorNumWorkers(c)}
+	r := &runner{conf: conf, clock: clock, tx: tx, ptx: ptx, sf: sf, ps: ps, coll: c, n: collect.VerifCollectorNumWorkers(c), sr: sr}
 	r.rel = make([]chan struct{}, r.n)
 	for w := 0; w < r.n; w++ {
 		r.park(w)
@@ -327,6 +383,9 @@ func describe(ev *types.Event) fwd {
 	if v, ok := ev.Data.Get("tid").(string); ok {
 		f.tid = v
 	}
+	if v, ok := ev.Data.Get(types.MetaStressed).(bool); ok && v {
+		f.stress = true
+	}
 	switch v := ev.Data.Get(config.DryRunFieldName).(type) {
 	case nil:
 	case bool:
@@ -378,6 +437,9 @@ func fwdStr(fs []fwd) string {
 	s := make([]string, len(fs))
 	for i, f := range fs {
 		s[i] = fmt.Sprintf("%d:%d:%s", f.sid, f.rate, f.marker)
+		if f.stress {
+			s[i] += ":s"
+		}
 	}
 	return strings.Join(s, ",")
 }
@@ -455,6 +517,22 @@ func (r *runner) afterDecide(w int, before []int) (string, bool) {
 	return fmt.Sprintf("w=%d took=%s left=%s", w, e, intList(after)), true
 }
 
+// reload: Config.Reload() -> sendReloadSignal -> monitor() -> reloadConfigs() -> worker.reload, then
+// every worker runs the reload branch of its loop (samplers cleared, sampleCache.Resize).
+func (r *runner) reload() {
+	r.conf.Reload()
+	for w := 0; w < r.n; w++ {
+		w := w
+		waitFor("reload signal to reach the worker", func() bool { return collect.VerifCollectorReloadLen(r.coll, w) == 1 })
+	}
+	for w := 0; w < r.n; w++ {
+		w := w
+		r.unpark(w)
+		waitFor("reload signal to be taken", func() bool { return collect.VerifCollectorReloadLen(r.coll, w) == 0 })
+		r.park(w)
+	}
+}
+
 func (r *runner) tick(w int) (string, bool) {
 	before := r.bufferedIDs(w)
 	collect.VerifCollectorTick(r.coll, w, r.clock.Now())
@@ -495,6 +573,33 @@ func (r *runner) Do(op []string) (string, bool) {
 		filt := 0
 		if collect.VerifCollectorDroppedLookup(r.coll, wExp, tid) {
 			filt = 1
+		}
+		if r.coll.Stressed() {
+			// route.go processEvent: while stressed the span goes to ProcessSpanImmediately and,
+			// being this node's own trace, never reaches AddSpan.
+			rate, keep, _ := r.coll.GetStressedSampleRate(tid)
+			k := 0
+			if keep {
+				k = 1
+			}
+			kit.Ext("owner %d = %d", t, wExp)
+			kit.Ext("filt %d = %d", t, filt)
+			kit.Ext("sdec %d = %d %d", t, k, rate)
+			before := len(r.bufferedIDs(wExp))
+			processed, kept := r.coll.ProcessSpanImmediately(sp)
+			fw := r.take()
+			switch {
+			case !processed:
+				return "unprocessed", true
+			case len(r.bufferedIDs(wExp)) != before:
+				return "confused stress path changed the buffer", true
+			case kept && len(fw) >= 1:
+				return "skept " + fwdStr(fw), true
+			case !kept && len(fw) == 0:
+				return "sdrop", true
+			default:
+				return fmt.Sprintf("confused kept=%v fwd=%s", kept, fwdStr(fw)), true
+			}
 		}
 		if err := r.coll.AddSpan(sp); err != nil {
 			return "rejected", true
@@ -596,17 +701,20 @@ func (r *runner) Do(op []string) (string, bool) {
 		r.conf.Samplers = samplersFor(gen)
 		r.conf.DryRun = dry
 		r.conf.Mux.Unlock()
-		r.conf.Reload() // -> sendReloadSignal -> monitor() -> reloadConfigs() -> worker.reload
-		for w := 0; w < r.n; w++ {
-			w := w
-			waitFor("reload signal to reach the worker", func() bool { return collect.VerifCollectorReloadLen(r.coll, w) == 1 })
+		r.reload()
+		return "", false
+	case "resize":
+		k := arg(1)
+		if k < 0 {
+			return "bad-op", true
 		}
-		for w := 0; w < r.n; w++ {
-			w := w
-			r.unpark(w)
-			waitFor("reload signal to be taken", func() bool { return collect.VerifCollectorReloadLen(r.coll, w) == 0 })
-			r.park(w)
-		}
+		r.conf.Mux.Lock()
+		r.conf.SampleCache.KeptSize = uint(k * r.n)
+		r.conf.Mux.Unlock()
+		r.reload()
+		return "", false
+	case "stress":
+		r.sr.on = arg(1) == 1
 		return "", false
 	case "check":
 		var ids []int
